@@ -202,6 +202,39 @@ func measureResetCall(d1, p, d2 time.Duration) int64 {
 
 var opCoq = map[string]string{"Rs": "HReset true", "Rz": "HReset true", "Rn": "HReset true", "Rl": "HReset false", "Rm": "HReset false", "W": "HWait", "T": "HTryRecv", "S": "HStop"}
 
+// measureTicker runs the collector's flush-ticker loop (pkg/cmd/collector.go) on
+// the real Timer: NewTimer; Reset(p); per round: an optional pause, then
+// `<-t.C; t.Read = true; t.Reset(p)`.  It returns the instants of the receives
+// in ns since the first Reset; -1 = the receive did not come, or the Reset
+// did not return, within the guard time.
+func measureTicker(p time.Duration, rounds int, pause func(i int) time.Duration) []int64 {
+	t := timeutil.NewTimer()
+	var res []int64
+	start := time.Now()
+	t.Reset(p)
+	for i := 0; i < rounds; i++ {
+		if d := pause(i); d > 0 {
+			time.Sleep(d)
+		}
+		select {
+		case <-t.C:
+			t.Read = true
+			res = append(res, int64(time.Since(start)))
+		case <-time.After(p + 3*time.Second):
+			return append(res, -1)
+		}
+		done := make(chan struct{})
+		go func() { t.Reset(p); close(done) }()
+		select {
+		case <-done:
+		case <-time.After(3 * time.Second):
+			return append(res, -1) // the loop is stuck in Reset
+		}
+	}
+	t.Stop()
+	return res
+}
+
 func main() {
 	seed := flag.Int64("seed", 1, "")
 	tier := flag.String("tier", "quick", "")
@@ -340,6 +373,14 @@ func main() {
 		{"Rm", "W", "T", "S", "Rs", "W", "T", "Rm", "W", "T", "Rs", "W", "T"}, // parked with the longest duration: never fires, Stop succeeds
 		{"Rs", "W", "T", "Rs", "W", "Rs", "W", "T", "W", "T"},                 // same with a short re-arm: exactly one tick
 	}
+	// the collector's ticker loop as an operation sequence: Reset, then (wait for the fire, receive, re-arm) x n
+	for _, n := range []int{3, 8} {
+		c := []string{"Rs"}
+		for i := 0; i < n; i++ {
+			c = append(c, "W", "T", "Rs")
+		}
+		corpus = append(corpus, append(c, "W", "T"))
+	}
 	for _, c := range corpus {
 		timers = append(timers, timerCase{c, runTimer(c)})
 	}
@@ -389,6 +430,41 @@ func main() {
 		lats = append(lats, latCase{int64(d), measureLatency(d, rng.Intn(2) == 0)})
 	}
 
+	// ---- ticker cases: the collector's loop on the real Timer; receives at least a period apart
+	type tickCase struct {
+		P     int64
+		Times []int64
+	}
+	var ticks []tickCase
+	noPause := func(int) time.Duration { return 0 }
+	for _, p := range []time.Duration{time.Millisecond, 2 * time.Millisecond, 700 * time.Microsecond, 3300 * time.Microsecond} {
+		p := p
+		ticks = append(ticks, tickCase{int64(p), measureTicker(p, 8, noPause)})
+		// every third round the loop is busy for 2.5 periods: the tick waits unread in the channel
+		ticks = append(ticks, tickCase{int64(p), measureTicker(p, 7, func(i int) time.Duration {
+			if i%3 == 1 {
+				return p*5/2
+			}
+			return 0
+		})})
+		// busy for less than a period before every receive
+		ticks = append(ticks, tickCase{int64(p), measureTicker(p, 6, func(i int) time.Duration { return p * time.Duration(1+i%3) / 4 })})
+	}
+	ntk := 4
+	if *tier == "thorough" {
+		ntk = 60
+	}
+	for i := 0; i < ntk; i++ {
+		p := time.Duration(300e3 + rng.Int63n(4e6)) // 0.3 .. 4.3 ms, any number of nanoseconds
+		k := rng.Intn(4)
+		ticks = append(ticks, tickCase{int64(p), measureTicker(p, 4+rng.Intn(6), func(i int) time.Duration {
+			if k > 0 && i%k == 0 {
+				return p * time.Duration(1+(i+k)%7) / 3
+			}
+			return 0
+		})})
+	}
+
 	// ---- write
 	var sb strings.Builder
 	var items []string
@@ -415,8 +491,17 @@ func main() {
 		items = append(items, fmt.Sprintf("(%s, %s)", vh.Z(c.D), vh.Z(c.Elapsed)))
 	}
 	sb.WriteString("Definition latency_cases : list latency_case := " + vh.ListNL(items) + "%Z.\n")
+	items = nil
+	for _, c := range ticks {
+		var ts []string
+		for _, x := range c.Times {
+			ts = append(ts, vh.Z(x))
+		}
+		items = append(items, fmt.Sprintf("(%s, %s)", vh.Z(c.P), vh.List(ts)))
+	}
+	sb.WriteString("Definition ticker_cases : list ticker_case := " + vh.ListNL(items) + "%Z.\n")
 	vh.WriteFile(*out, "cases.v", sb.String())
-	vh.WriteJSON(*out, "cases.json", map[string]interface{}{"micro": micro, "from": from, "timer": timers, "latency": lats})
+	vh.WriteJSON(*out, "cases.json", map[string]interface{}{"micro": micro, "from": from, "timer": timers, "latency": lats, "ticker": ticks})
 	nontriv := map[string]bool{}
 	for _, c := range micro {
 		r := c.Nsec % 1000
@@ -436,7 +521,7 @@ func main() {
 		}
 	}
 	vh.WriteJSON(*out, "summary.json", map[string]interface{}{
-		"micro": len(micro), "from": len(from), "timer": len(timers),
+		"micro": len(micro), "from": len(from), "timer": len(timers), "ticker": len(ticks),
 		"micro_carry_into_next_second": carry,
 		"distinct_nontrivial":          len(nontriv),
 		"samples":                      []interface{}{micro[0], micro[len(micro)-1], from[len(from)-1], timers[3], timers[len(timers)-1]},
